@@ -1598,6 +1598,28 @@ def _put_one_Subscript_slice(
     return _put_one_exprlike_required(self, code, idx, field, child, static, options, 2)
 
 
+def _put_one_Starred_value(
+    self: fst.FST,
+    code: _PutOneCode,
+    idx: int | None,
+    field: str,
+    child: _Child,
+    static: onestatic,
+    options: Mapping[str, Any],
+) -> fst.FST:
+    """Disallow non-targetable expressions in targets."""
+
+    child, idx = _validate_put(self, code, idx, field, child)
+    code = static.code_as(code, options, self.root._parse_params, strip=True,
+                          coerce=fst.FST.get_option('coerce', options))
+
+    if self.a.ctx.__class__ is not Load:  # only allow possible expression targets into an expression target
+        if not is_valid_target(code.a):
+            raise NodeError('invalid expression for Starred Store target')
+
+    return _put_one_exprlike_required(self, code, idx, field, child, static, options, 2)
+
+
 def _put_one_List_elts(
     self: fst.FST,
     code: _PutOneCode,
@@ -1800,7 +1822,18 @@ def _put_one_withitem_optional_vars(
     """If delete leaves a single parenthesized context_expr `Tuple` then need to parenthesize that, otherwise it can be
     reparsed as multiple `withitems` instead of a single `Tuple`."""
 
-    ret = _put_one_exprlike_optional(self, code, idx, field, child, static, options)
+    validated = 0
+
+    if code is not None:
+        child, idx = _validate_put(self, code, idx, field, child, can_del=True)
+        code = static.code_as(code, options, self.root._parse_params, strip=True,
+                              coerce=fst.FST.get_option('coerce', options))
+        validated = 2
+
+        if code.a.__class__ in (Tuple, List) and not is_valid_target(code.a):  # the type restriction only looks at the top node
+            raise NodeError('invalid expression for withitem.optional_vars target')
+
+    ret = _put_one_exprlike_optional(self, code, idx, field, child, static, options, validated)
 
     if (parent := self.parent) and parent.a.__class__ in ASTS_LEAF_WITH:
         _fix_With_items(parent)
@@ -2987,7 +3020,7 @@ _PUT_ONE_HANDLERS = {
     (Subscript, 'value'):                 (False, _put_one_Subscript_value, _onestatic_expr_required),  # expr
     (Subscript, 'slice'):                 (False, _put_one_Subscript_slice, onestatic(_one_info_exprlike_required, _restrict_fmtval_starred, code_as=code_as_expr_slice)),  # expr
     (Subscript, 'ctx'):                   (False, _put_one_ctx, _onestatic_ctx),  # expr_context
-    (Starred, 'value'):                   (False, _put_one_exprlike_required, _onestatic_expr_required),  # expr
+    (Starred, 'value'):                   (False, _put_one_Starred_value, _onestatic_expr_required),  # expr
     (Starred, 'ctx'):                     (False, _put_one_ctx, _onestatic_ctx),  # expr_context
     (Name, 'id'):                         (False, _put_one_identifier_required, _onestatic_identifier_required),  # identifier
     (Name, 'ctx'):                        (False, _put_one_ctx, _onestatic_ctx),  # expr_context
